@@ -24,14 +24,14 @@ thread is at its next gate or has finished.  A watchdog turns a stuck hand-over
 into tlc.MachineryError.
 
 Recorded line (one JSON object per event, see PresenceTrace.tla):
-  ev      init | submit | finish | begin | call | end | expire | restart
+  ev      init | submit | finish | begin | call | end | expire | crash | restart | reap
   h, c    host / container        k   request kind (create | delete)
   call:   s session, op, path, res, seen (owner returned by get, -1), rk, rc
           (request in flight), w = writes applied by the call as the store logged
           them [{op, path, o (owner at that instant, -1 none), a (applied)}],
           fired = [[host, container]] retry_request calls in the order applied
   post    nodes {path: {d, o}}, pres {host: {path: container}} (the services' maps),
-          queue {host: [[kind, c]]}, active {host: [c]}, sess {host: n},
+          queue {host: [[kind, c]]}, active {host: [c]}, sess {host: n}, linger [n],
           next {host: [op, path] the call the request in flight is stopped at, or []}
 """
 import glob as _glob
@@ -111,7 +111,7 @@ SCENARIOS = {
 def header(scn):
     """What the trace spec needs to know about the scenario."""
     return dict(hosts=scn['hosts'], conts=scn['conts'], inst=scn['inst'], paths=scn['paths'],
-                data=scn['data'])
+                data=scn['data'], kidx=list(range(1, 2 + len(scn['endpoints']))))
 
 
 # ---------------------------------------------------------------------------
@@ -323,6 +323,7 @@ class World:
         self.submitted = []
         self.where = {}
         self.nexp = 0
+        self.linger = []            # fake sessions of crashed services, still alive
         self.lines = []
         self.schedule = []          # the actions as executed (resolved arguments)
         self.skipped = 0
@@ -464,7 +465,8 @@ class World:
             sess[h] = self._sess(host.client.session) if host.up else 0
             slot = host.slot
             nxt[h] = list(slot.pending) if slot is not None and slot.state == 'gate' else []
-        return dict(nodes=nodes, pres=pres, queue=queue, active=active, sess=sess, next=nxt)
+        return dict(nodes=nodes, pres=pres, queue=queue, active=active, sess=sess, next=nxt,
+                    linger=sorted(self._sess(x) for x in self.linger))
 
     def _log(self, line):
         line['post'] = self.post()
@@ -651,6 +653,43 @@ class World:
         self._log(dict(ev='expire', h=h, s=self._sess(old), fired=fired))
         return True
 
+    def can_crash(self, h):
+        return self.can_expire(h)
+
+    def crash(self, h):
+        """The service process dies without closing its session: the session and
+        its ephemeral nodes linger until reap()."""
+        if not self.can_crash(h):
+            return False
+        host = self.hosts[h]
+        old = host.client.session
+        host.up = False
+        if host.slot is not None:
+            self.turn.abandon(host.slot)
+            host.slot = None
+        host.queue = []
+        self.linger.append(old)
+        self.nexp += 1
+        self.retries = []
+        self.schedule.append(('Crash', [h]))
+        self._log(dict(ev='crash', h=h, s=self._sess(old)))
+        return True
+
+    def can_reap(self, s):
+        return any(self._sess(x) == s for x in self.linger)
+
+    def reap(self, s, order=None):
+        """The session of a crashed service times out."""
+        if not self.can_reap(s):
+            return False
+        fake = next(x for x in self.linger if self._sess(x) == s)
+        self.linger.remove(fake)
+        self.store.expire(fake)
+        fired = self._drain_retries(order)
+        self.schedule.append(('Reap', [s, [list(f) for f in fired]]))
+        self._log(dict(ev='reap', s=s, fired=fired))
+        return True
+
     def can_restart(self, h):
         return not self.hosts[h].up
 
@@ -695,6 +734,10 @@ class World:
             return self.expire(args[0], args[1] if len(args) > 1 else None)
         if act == 'Restart':
             return self.restart(args[0], args[1] if len(args) > 1 else None)
+        if act == 'Crash':
+            return self.crash(args[0])
+        if act == 'Reap':
+            return self.reap(args[0], args[1] if len(args) > 1 else None)
         if act == 'Pad':
             return True
         raise tlc.MachineryError('unknown schedule action %r' % (act,))
@@ -722,6 +765,9 @@ class World:
                 len(self.submitted) < len(scn['conts'])
             if self.can_expire(h) and busy:
                 out.append(('Expire', [h]))
+                out.append(('Crash', [h]))
+        for x in self.linger:
+            out.append(('Reap', [self._sess(x)]))
         return out
 
     def drain(self):
@@ -763,17 +809,20 @@ def run_random(scn, rng, steps, max_expire=2, p_expire=0.04):
                 break
             calls = [a for a in acts if a[0] in ('Call', 'Begin', 'End', 'Restart')]
             env = [a for a in acts if a[0] in ('Submit', 'Finish')]
-            exp = [a for a in acts if a[0] == 'Expire']
+            exp = [a for a in acts if a[0] in ('Expire', 'Crash')]
+            reap = [a for a in acts if a[0] == 'Reap']
             r = rng.random()
             if exp and r < p_expire:
                 act, args = rng.choice(exp)
+            elif reap and (r < p_expire + 0.06 or len(acts) == len(reap)):
+                act, args = rng.choice(reap)
             elif env and (not calls or r < 0.25):
                 act, args = rng.choice(env)
             elif calls:
                 act, args = rng.choice(calls)
             else:
                 act, args = rng.choice(acts)
-            if act in ('Call', 'Expire'):
+            if act in ('Call', 'Expire', 'Reap'):
                 # the order in which simultaneous retries arrive is random too
                 def shuffled(got):
                     got = list(got)
